@@ -51,16 +51,16 @@ package stack
 
 //@ func (*Route).Release props C07
 //@   trusted
-//@   modifies everything
+//@   modifies everything()
 
 //@ func (*Route).WritePacket props C07
 //@   trusted
-//@   modifies everything
+//@   modifies everything()
 
 //@ func (*Route).Resolve props C07
 //@   trusted
-//@   modifies everything
+//@   modifies everything()
 
 //@ func (*Route).RemoveWaker props C07
 //@   trusted
-//@   modifies everything
+//@   modifies everything()
